@@ -502,8 +502,39 @@ func ruleR36(c *Ctx) {
 		}
 		return ""
 	}
+	// countedBy: u is a helper whose boolean result makes its (only) caller step the size counter
+	// (`if t.insert(…) { t.size++ }`): its `return true` is the size step
+	countedBy := func(tk *TreeKind, u *FuncUnit) bool {
+		sizeField := c.sizeField(tk)
+		for _, s := range c.callSitesOf(u) {
+			if s.u.Recv != tk.Name {
+				continue
+			}
+			found := false
+			ast.Inspect(s.u.Body, func(n ast.Node) bool {
+				ifs, ok := n.(*ast.IfStmt)
+				if !ok {
+					return true
+				}
+				if ast.Unparen(ifs.Cond) != ast.Expr(s.call) {
+					return true
+				}
+				for _, st := range ifs.Body.List {
+					if inc, ok := st.(*ast.IncDecStmt); ok && inc.Tok == token.INC && isFieldOf(info, inc.X, sizeField) {
+						found = true
+					}
+				}
+				return true
+			})
+			if found {
+				return true
+			}
+		}
+		return false
+	}
 	outcomes := func(tk *TreeKind, u *FuncUnit) bagT {
 		out := bagT{}
+		counted := countedBy(tk, u)
 		g := m.cfgOf(u)
 		guards := guardsOf(info, g)
 		// the case comparisons of a tagged switch are guards too
@@ -549,6 +580,14 @@ func ruleR36(c *Ctx) {
 					if len(parts) > 0 && parts[len(parts)-1] != "_" {
 						ev = "return " + strings.Join(parts, ",")
 					}
+					if counted && len(parts) == 1 {
+						switch parts[0] {
+						case "true":
+							ev = "size++"
+						case "false":
+							ev = ""
+						}
+					}
 				case *ast.IncDecStmt:
 					if isFieldOf(info, x.X, sizeField) {
 						ev = "size" + x.Tok.String()
@@ -577,7 +616,7 @@ func ruleR36(c *Ctx) {
 		return out
 	}
 	for _, mn := range []string{"Delete", "Search", "Insert"} {
-		cu, ru := m.effectiveMethod(coll, mn), m.effectiveMethod(ref, mn)
+		cu, ru := m.algorithmUnit(coll, mn), m.algorithmUnit(ref, mn)
 		if cu == nil || ru == nil {
 			continue
 		}
@@ -837,6 +876,16 @@ func ruleR36(c *Ctx) {
 				break
 			}
 		}
+		// how often the counter is stepped in the text depends on where the counting is done (on
+		// every path, or once in a wrapper around a helper that reports whether a key was added):
+		// the pairing of links and steps per path is R03's subject, here only presence counts
+		for _, x := range []bagT{a, b} {
+			for s, n := range x {
+				if strings.HasPrefix(s, "store t.") && n > 1 {
+					x[s] = 1
+				}
+			}
+		}
 		var onlyA, onlyB []string
 		for s, n := range a {
 			if b[s] < n {
@@ -847,6 +896,22 @@ func ruleR36(c *Ctx) {
 			if a[s] < n {
 				onlyB = append(onlyB, fmt.Sprintf("%q ×%d", s, n-a[s]))
 			}
+		}
+		// guards that only one copy spells out (a redundant test dropped, a comparison moved into a
+		// helper of the standard library) are not a difference by themselves; a guard that differs
+		// shows up on both sides
+		cmpOnly := func(xs []string) bool {
+			for _, x := range xs {
+				if !strings.HasPrefix(x, "\"cmp ") {
+					return false
+				}
+			}
+			return true
+		}
+		if len(onlyA) == 0 && cmpOnly(onlyB) {
+			onlyB = nil
+		} else if len(onlyB) == 0 && cmpOnly(onlyA) {
+			onlyA = nil
 		}
 		sort.Strings(onlyA)
 		sort.Strings(onlyB)
